@@ -23,8 +23,8 @@ ASSUMPTIONS = [
     "hook points: KNNSubgraph.create_arcs/calculate_pdf, the models' _clustering/_normalized_cut and opfython.math.general.opf_accuracy; a missing hook makes the dependent clause inconclusive, never an alarm",
 ]
 BUDGET = {
-    "quick": {"cases": 2400, "seconds": 60, "shards": 8},
-    "thorough": {"cases": 40000, "seconds": 540, "shards": 16},
+    "quick": {"cases": 9600, "seconds": 90, "shards": 8},
+    "thorough": {"cases": 160000, "seconds": 900, "shards": 16},
 }
 REQUIRED_OBS = ["knn_selection_checked", "unsup_selection_checked", "knn_all_accuracies_zero", "knn_best_not_first", "unsup_best_not_first",
                 "unsup_early_stop_at_zero_cut", "accuracy_plateau"]
